@@ -298,7 +298,7 @@ class Unit:
                     merged = dict(f)
                     for k, v in tgt.items():
                         if k in ('extra', 'pre') and f.get(k):
-                            merged[k] = f[k] + '\n' + v
+                            merged[k] = v if f[k].strip() == v.strip() else f[k] + '\n' + v
                         elif k == 'rewrite' and f.get(k):
                             merged[k] = list(f[k]) + [x for x in v if x not in f[k]]
                         elif k == 'keep' and f.get(k):
@@ -573,8 +573,11 @@ class Unit:
                                 seg = text[start:i]
                                 if seg.strip() and not seg.strip().startswith('pub'):
                                     p2 = start + (len(seg) - len(seg.lstrip()))
-                                    ed.add(p2, p2, 'pub ', 'N3b')
-                                    self.rule('N3b', path, line_of(text, p2), 'tuple field made pub')
+                                    try:
+                                        ed.add(p2, p2, 'pub ', 'N3b')
+                                        self.rule('N3b', path, line_of(text, p2), 'tuple field made pub')
+                                    except LostAnchor:
+                                        pass   # the struct line is rewritten by a unit-specific RW (opaque struct)
                                 start = i + 1
                             i += 1
         # ---- T1: `impl<'a> TryFrom<&'a [u8]> for X<'a>` -> inherent `impl<'a> X<'a> { pub fn try_from }` (body verbatim)
@@ -613,10 +616,11 @@ class Unit:
                     continue
                 ed.add(it['hdr_a'], it['body_open'], "impl%s %s " % (m.group(1) or '', m.group(2)), 'T2')
                 body = text[it['body_open']:it['b']]
-                fm = re.search(r'\bfn %s\(' % re.escape(t2['fn']), body)
-                if not fm:
-                    raise LostAnchor("T2: no fn %s in %s of %s" % (t2['fn'], key, path))
-                ed.add(it['body_open'] + fm.start(), it['body_open'] + fm.start(), 'pub ', 'T2')
+                for fname in [t2['fn']] + list(t2.get('also', [])):
+                    fm = re.search(r'\bfn %s\b' % re.escape(fname), body)
+                    if not fm:
+                        raise LostAnchor("T2: no fn %s in %s of %s" % (fname, key, path))
+                    ed.add(it['body_open'] + fm.start(), it['body_open'] + fm.start(), 'pub ', 'T2')
                 self.rule('T2', path, line_of(text, it['hdr_a']), '`%s` emitted as inherent `impl%s %s { pub fn %s }` (body verbatim; Verus loses its iterator axioms in functions reached from trait impls)' % (key, m.group(1) or '', m.group(2), t2['fn']))
         # ---- per-function overlays
         fn_spans = []  # (a, b, qualified name)
@@ -649,6 +653,8 @@ class Unit:
             groups.append("crate::buf::group_buffer_axioms")
         if 'cipher.rs' in self.spec.get('shims', []):
             groups.append("crate::cipher::group_cipher_axioms")
+        if 'pyo3.rs' in self.spec.get('shims', []):
+            groups.append("crate::pyo3::group_pyo3_axioms")
         if groups:
             self.emit("broadcast use {%s};" % ', '.join(groups), ('gen',))
         if f.get('pre'):
